@@ -625,7 +625,10 @@ class MacroProgram(ElementProgram):
             ON_ERROR = skip
         else:
             key, value = tal.parse_substitution(clause)
-            translate = ns.get((I18N, 'translate')) == ''
+            # As for tal:replace: either true (the value is the message
+            # id) or the explicit message id (the value is the default).
+            translate = ns.get((I18N, 'translate'))
+            translate = translate == '' or translate
             fallback = self._make_content_node(
                 value, None, key, translate,
             )
